@@ -121,6 +121,24 @@ theorem EInv.q_add {q q' : List SEvent} {fut : AList TaskId Nat} {ns : Option Na
     · exact h.finNotEF e h1 hf
     · subst h1; exact (he0 hf).2
 
+/-- One more kept id, below the counter and not the id of a TASK_FINISHED event. -/
+theorem EInv.ef_add {q q' : List SEvent} {fut fut' : AList TaskId Nat} {ns ns' : Option Nat} {nid : Nat}
+    (h : EInv q fut ns nid) (x0 : Nat) (hx : x0 < nid)
+    (hq : ∀ e ∈ q', e.ev.etype = ET.taskFinished → e ∈ q)
+    (hfresh : ∀ e ∈ q, e.ev.etype = ET.taskFinished → e.ev.eid ≠ x0)
+    (hef : ∀ x, EF fut' ns' x → EF fut ns x ∨ x = x0) : EInv q' fut' ns' nid := by
+  refine ⟨?_, ?_, ?_⟩
+  · intro x hx'
+    rcases hef x hx' with h1 | h1
+    · exact h.efLt x h1
+    · rw [h1]; exact hx
+  · intro e he hf
+    exact h.finLt e (hq e he hf) hf
+  · intro e he hf hx'
+    rcases hef _ hx' with h1 | h1
+    · exact h.finNotEF e (hq e he hf) hf h1
+    · exact hfresh e (hq e he hf) hf h1
+
 /-! ### the invariant of the simulator state -/
 
 /-- The invariant, parametrised by what is known of the RUNNING tasks (`RunOK` between
